@@ -108,6 +108,10 @@ def _add_markdown_hard_break_handling(base_wrapper: LineWrapper) -> LineWrapper:
                 # needs the same protection as the first word of any wrapped line.
                 segment = _escape_leading_word(segment)
             wrapped_segment = base_wrapper(segment, cur_initial_indent, subsequent_indent)
+            if not wrapped_segment and not is_last:
+                # An empty segment (a line holding only a hard break) is still a line of the
+                # paragraph: it carries the indent of its container.
+                wrapped_segment = cur_initial_indent
             if is_last:
                 wrapped_segments.append(wrapped_segment)
             else:
